@@ -105,6 +105,20 @@ def replay_r_history(args: tuple[list[dict[str, str]], tuple[str, str]]) -> dict
     return out
 
 
+def corpus_worker(args: tuple[dict[str, Any], tuple[str, str]]) -> dict[str, Any]:
+    from harness import corpus as C
+    case, cfg = args
+    W.preload()
+    root = scratch("c02c-")
+    try:
+        r = C.run_case(case, root, cfg[0], cfg[1])
+    except BaseException as e:  # harness problem with this case: skip it, never a verdict
+        r = {"name": case["name"], "steps": 0, "violation": None, "traces": [], "skipped": "harness error %r" % (e,), "nontrivial": False}
+    shutil.rmtree(root, ignore_errors=True)
+    r["cfg"] = cfg
+    return r
+
+
 def minimise_r(worlds: list[dict[str, str]], cfg: tuple[str, str]) -> list[dict[str, str]]:
     """Delta-minimise a failing R history: drop steps, then revert single-module changes of a step."""
     def fails(ws: list[dict[str, str]]) -> bool:
@@ -219,19 +233,41 @@ def main(argv: list[str]) -> int:
             if key not in seen:
                 seen.add(key)
                 v.violation(key, {"kind": "R-history", "cfg": cfg, "history": ws, "minimal": mini}, r["violation"]["what"])
+    # ---- 3b. the repository's own multi-step incremental scenarios, expected outputs ignored
+    from harness import corpus as C
+    from harness.common import REPO
+    ccases = []
+    for fn in ("check-incremental.test", "check-serialize.test"):
+        ccases += C.parse_cases(os.path.join(REPO, "test-data", "unit", fn))
+    if tier == "quick":
+        rnd.shuffle(ccases); ccases = ccases[:90]
+    cwork = [(c, W.CONFIGS[i % 4]) for i, c in enumerate(ccases)]
+    cresults = []
+    with ProcessPoolExecutor(16) as pex:
+        for res in pex.map(corpus_worker, cwork, chunksize=2):
+            cresults.append(res)
+    n_runs += sum(r["steps"] for r in cresults)
+    for r in cresults:
+        if r["violation"]:
+            v.violation("corpus:%s" % r["name"], {"kind": "corpus", "case": r["name"], "cfg": r["cfg"]}, "%s (%s/%s): %s" % (r["name"], r["cfg"][0], r["cfg"][1], r["violation"]))
     # ---- 4. trace validation
     scen = [{"sqlite": cfg[0] == "sqlite", "runs": r["trace"]} for (h_, cfg), r in zip(work, results) if r["trace"]][:500]
     scen += [{"sqlite": cfg[0] == "sqlite", "runs": r["trace"], "mods": ["a", "b", "c", "d"]} for (h_, cfg), r in zip(rwork, rresults) if r["trace"]][:300]
+    for r in cresults:
+        if r["traces"] and not r["skipped"] and not r["violation"]:
+            mods = sorted({e["mod"] for tr in r["traces"] for e in tr if e["ev"] in ("fresh", "stale")})
+            scen.append({"sqlite": r["cfg"][0] == "sqlite", "runs": r["traces"], "mods": mods})
     tv = validate_store_traces(scen)
     for rej in tv["rejected"][:5]:
         v.violation("trace:" + json.dumps(rej["at"]), rej, "recorded store trace is not a behaviour of Trace_Incremental.tla: " + rej["why"])
     if tv["validated"] == 0 or n_runs == 0:
         raise MachineryError("conformance step did not run")
-    nontrivial = sum(1 for r in results + rresults if r["nontrivial"])
+    nontrivial = sum(1 for r in results + rresults + cresults if r["nontrivial"])
     coverage = {
         "states": states, "transitions": transitions,
         "traces_validated_against_impl": tv["validated"],
         "evaluations": len(work) + len(rwork), "distinct_nontrivial": nontrivial, "runs_compared_with_cold": n_runs,
+        "corpus_cases_run": sum(1 for r in cresults if not r["skipped"]), "corpus_cases_skipped": sum(1 for r in cresults if r["skipped"]),
         "model_histories": len(hists), "model_history_replays": len(work), "r_two_step": len(pairs), "r_multi_step": len(multi),
         "model_drift": [{"cfg": w[1], "drift": d} for w, d in drift[:10]], "model_drift_count": len(drift),
         "rule": "every history TLC emits for Gen_Incremental.cfg (<=3 runs, <=2 edits, <=1 touch over catalogue M) replayed in the store x format "
